@@ -218,6 +218,16 @@ theorem validateFilterTables_key (a : TableArgs) (l r : Frame) (hv : TablesValid
   split_ifs with h1 h2 <;> first | rfl | skip
   exfalso; simp at h1 h2; simp [h1, h2] at h
 
+/-- two rows with Python-equal key values (`Props.SameKeyTwice`): not a key column -/
+theorem not_keyValid_of_sameKeyTwice (f : Frame) (key : String) (h : Props.SameKeyTwice f key) : ¬ KeyValid f key := by
+  obtain ⟨i, j, hij, hj, he⟩ := h
+  exact not_keyValid_of_pyEq f key i j hij hj he
+
+theorem keyTest_of_sameKeyTwice (f : Frame) (key : String) (h : Props.SameKeyTwice f key) : keyTest f key = false := by
+  cases hk : keyTest f key with
+  | false => rfl
+  | true => exact absurd ((keyTest_iff f key).1 hk) (not_keyValid_of_sameKeyTwice f key h)
+
 /-! ## 3. totality on validated arguments -/
 
 theorem setSimJoinPy_total (m : Measure) (a : JoinArgs) (t : TokObj) (toks : TokFn) (cpu : Int) (l r : Frame)
